@@ -41,6 +41,7 @@ pub struct World {
     pub attempted: bool,                // add_payment_attempt was called by us (an outgoing attempt may exist)
     pub fail_sent: bool,                // a value was put in the fail_requested channel (by handle_htlc)
     pub fail_received: Option<RespAbs>, // the failure we took out of the fail_requested channel, if any
+    pub fresh_start: bool,              // the stored state we read at the start was Free: no earlier attempt on record
     pub lock_held: bool,                // the global table mutex is held by us
     pub faulted: bool,                  // some RPC faulted (transport error: effect unknown)
     pub rpc_under_lock: bool,           // an RPC was issued while lock_held (C14: must stay false)
@@ -65,6 +66,10 @@ pub open spec fn max0(x: int) -> int { if x > 0 { x } else { 0 } }
 #[verifier::external_body]
 pub proof fn ghost_unlock(tracked w: &mut World)
     ensures *final(w) == (World { lock_held: false, ..*old(w) })
+{ unimplemented!() }
+#[verifier::external_body]
+pub proof fn ghost_set_fresh(tracked w: &mut World, b: bool)
+    ensures *final(w) == (World { fresh_start: b, ..*old(w) })
 { unimplemented!() }
 #[verifier::external_body]
 pub proof fn ghost_told(tracked w: &mut World, n: u32)
@@ -121,7 +126,7 @@ pub open spec fn rely_env(a: World, b: World) -> bool {
     // constants
     &&& same_consts(a, b)
     // ours alone
-    &&& b.released == a.released && b.resolved == a.resolved && b.lock_held == a.lock_held && b.fail_received == a.fail_received
+    &&& b.released == a.released && b.resolved == a.resolved && b.lock_held == a.lock_held && b.fail_received == a.fail_received && b.fresh_start == a.fresh_start
     &&& b.received_read == a.received_read && b.min_expiry_read == a.min_expiry_read && b.height_at_init == a.height_at_init
     &&& b.height_read == a.height_read && b.height_told >= a.height_told && b.last_polled == a.last_polled && b.wait_started_ns == a.wait_started_ns
     &&& b.slept_ns == a.slept_ns && b.rpc_under_lock == a.rpc_under_lock
